@@ -185,6 +185,16 @@ func deriveEq(t *rapid.T, a V, cfg TreeCfg) (V, string) {
 func GenC07(t *rapid.T) *C07Case {
 	cfg := equalityTreeCfg()
 	a := GenRoot(t, cfg)
+	if oneIn(t, 15, "deepchain") {
+		chainCfg := cfg
+		chainCfg.LongLists = false
+		inner := GenChain(t, chainCfg, 70)
+		if a.K == KList {
+			a.L = append(a.L, inner)
+		} else if _, dup := a.Field("chain"); !dup {
+			a.O = append(a.O, Pair{"chain", inner})
+		}
+	}
 	b, rel := deriveEq(t, a, cfg)
 	c := &C07Case{A: a, B: b, Rel: rel}
 	if oneIn(t, 3, "triple") {
